@@ -47,6 +47,18 @@ def nows_tokens(text):
     return [(t[0], t[1]) for t in impl.tokenize(text, True, True) if t[0] != 'S']
 
 
+def used_uris(sem):
+    """namespace URIs that occur in a selector of the projection (qualified names are written {uri}name)"""
+    import re
+    out = set()
+    for r in sem:
+        if r[0] == 'style':
+            out.update(re.findall(r"\{([^*}]*)\}", repr(r[1])))
+        elif r[0] == 'media':
+            out.update(used_uris(r[2]))
+    return out
+
+
 def effect(sem, prefs, used_ns=None):
     """documented effect of the content preferences on the semantic projection"""
     out = []
@@ -56,10 +68,10 @@ def effect(sem, prefs, used_ns=None):
             continue
         if k == 'unknown' and not prefs.get('keepUnknownAtRules', True):
             continue
-        if k == 'namespace' and prefs.get('keepUsedNamespaceRulesOnly', False):
-            continue   # generated sheets never use their namespace in a selector
+        if k == 'namespace' and prefs.get('keepUsedNamespaceRulesOnly', False) and r[2] not in (used_ns if used_ns is not None else used_uris(sem)):
+            continue   # a namespace no selector uses
         if k == 'media':
-            r = (k, r[1], effect(r[2], prefs))
+            r = (k, r[1], effect(r[2], prefs, used_ns if used_ns is not None else used_uris(sem)))
         if k in ('style', 'font-face', 'page') and not prefs.get('keepAllProperties', True):
             def eff(ds):
                 seen = {}
@@ -256,6 +268,18 @@ def run(ctx):
             ctx.violation('raises', {'text': text}, '%s: %s' % (type(e).__name__, e), KNOWN_PRED)
             continue
         doms.append((dom, text, base, sem, tok))
+    # a fixed sheet with a comment at every place a comment may stand (inside compound selectors, preludes, media
+    # lists, values): switching comments off must not change what anything else means
+    dense = ('@import /*i*/ "x.css" /*j*/ tv /*k*/, print;\n@namespace /*n*/ p /*m*/ "u";\n'
+             '@media tv /*a*/ , print /*b*/ { a/*c*/.b , li/*d*/:hover > em/*e*/[title] { left /*f*/ : /*g*/ 1px /*h*/ 2px ; } }\n'
+             '@page /*p*/ :first { margin : 1px }\n/*top*/\np|x/*q*/#i /*r*/ + y/*u*/::after { color: red /*s*/ !important }\n'
+             '@font-face /*t*/ { font-family : x }\nq/*v*/:not(/*w*/.z/*x*/) { top: 0 }')
+    try:
+        dom = c03.parse(dense)
+        cssutils.ser.prefs.useDefaults()
+        doms.append((dom, dense, dom.cssText, S.sem_sheet(dom), nows_tokens(dom.cssText.decode('utf-8'))))
+    except Exception as e:
+        ctx.violation('raises', {'text': dense}, '%s: %s' % (type(e).__name__, e), KNOWN_PRED)
     ALL = dict(LAYOUT)
     ALL.update(CONTENT)
     singles = [{k: v} for k, vs in ALL.items() for v in vs[1:]]
